@@ -27,6 +27,7 @@ type allegReq struct {
 	plan     string // guilty | innocent | stall
 	created  int64
 	voted    map[string]bool
+	slow     bool // the second vote comes two blocks after the first: the request is still open meanwhile
 }
 
 func (e *Evidence) Name() string { return "evidence" }
@@ -115,7 +116,7 @@ func (e *Evidence) Plan(c *Ctx) []hist.TxSpec {
 			// (worlds with an odd stake maturity: both allegations end in a guilty verdict, in the same block)
 			bplan = "guilty"
 		}
-		b := &allegReq{id: fmt.Sprintf("%s-b-%d", e.Tag, c.H), target: gen[1], plan: bplan, created: c.H, voted: map[string]bool{}}
+		b := &allegReq{id: fmt.Sprintf("%s-b-%d", e.Tag, c.H), target: gen[1], plan: bplan, created: c.H, voted: map[string]bool{}, slow: c.W.P.StakeMaturity%2 == 0}
 		e.reqs = append(e.reqs, a, b)
 		out = append(out, e.allege(c, gen[3], a, "allegation against v0 (will be found guilty)"))
 		out = append(out, e.allege(c, gen[2], b, "allegation against v1 (will be found "+bplan+")"))
@@ -146,7 +147,10 @@ func (e *Evidence) Plan(c *Ctx) []hist.TxSpec {
 		switch age {
 		case 1:
 			// votes by the two biggest validators, both requests in the same block
-			for _, v := range []*world.Validator{gen[3], gen[2]} {
+			for k, v := range []*world.Validator{gen[3], gen[2]} {
+				if r.slow && k == 1 {
+					continue
+				}
 				if v != r.target && active(v) && !r.voted[v.Name] {
 					r.voted[v.Name] = true
 					out = append(out, e.vote(c, v, r, ch, fmt.Sprintf("%s votes %d on %s", v.Name, ch, r.plan)))
@@ -156,7 +160,21 @@ func (e *Evidence) Plan(c *Ctx) []hist.TxSpec {
 			out = append(out, e.vote(c, gen[3], r, ch, "double vote (must fail)"))
 			u := c.W.Users[1]
 			out = append(out, Build(c, "ALLEGATION_VOTE", &evact.AllegationVote{RequestID: r.id, Address: u.Addr, Choice: ch}, "vote by a non-validator (must fail)", u))
+		case 2:
+			if r.plan == "guilty" {
+				// the validator found guilty at the end of the previous block votes on the other open allegations
+				// (it is frozen; the election has not caught up with the verdict yet)
+				for _, o := range e.reqs {
+					if o != r && o.target != r.target && c.H-o.created >= 1 && c.H-o.created < 12 {
+						out = append(out, e.vote(c, r.target, o, 1, "vote by a validator that was found guilty in the previous block (must fail)"))
+					}
+				}
+			}
 		case 3:
+			if r.slow && active(gen[2]) && gen[2] != r.target && !r.voted[gen[2].Name] {
+				r.voted[gen[2].Name] = true
+				out = append(out, e.vote(c, gen[2], r, ch, fmt.Sprintf("%s votes %d on %s, two blocks after the first vote", gen[2].Name, ch, r.plan)))
+			}
 			if r.plan == "guilty" {
 				// the frozen validator tries everything it must not be able to do
 				v := r.target
